@@ -1,7 +1,7 @@
 SPECIFICATION MCSpec
 CONSTANTS Nib = {0, 1, 15}
           KeyLen = 3
-          Vals = {10, 11, 331}
+          Vals = {10, 11, 331, 271, 291, 261}
           Pad = 1
           MaxKeys = 27
           Mode = "sim"
